@@ -403,6 +403,17 @@ class E3Check(Check):
             r = random.Random(808)
             for _ in range(6 if tier == "quick" else 30):
                 cases.append(gen_text_precision_case(r))
+            # exactly built poses and several propagating transforms in one
+            # history (inside the quantifier: 200 poses, ~15 operations)
+            for n, k in ((200, 6), (100, 7), (50, 8), (200, 3)):
+                c = gen_text_precision_case(r)
+                c["n"], c["dtype"] = n, "exact"
+                c["ops"] = [{"op": "transform", "mode": "prop",
+                             "T": [float(x) for x in random_unit_quat(
+                                 r, "uniform" if i % 2 else "identity")] +
+                             [r.gauss(0, 3.0) for _ in range(3)]}
+                            for i in range(k)]
+                cases.append(c)
             for mode in ("prop", "right", "left"):
                 for n in (60, 200):
                     c = gen_text_precision_case(r)
@@ -529,6 +540,8 @@ def run_text_precision(evo, case, check):
         T, _, _ = se3_from(list(quat[i]) + list(pos[i]))
         if case.get("dtype") == "float32":
             poses.append(T.astype(np.float32))
+        elif case.get("dtype") == "exact":
+            poses.append(T)  # float64, orthonormal to rounding
         else:
             poses.append(np.array([[float("%e" % x) for x in row]
                                    for row in T]))
